@@ -325,8 +325,8 @@ _EXT = {}
 
 
 def ext_classes():
-    """User extensions that must not matter: node classes (passed as `factory=`) whose instances are falsy when they have no
-    children (`__len__`) and whose `name` differs from `str(data)`; tree subclasses that override the class-level defaults.
+    """User extensions that must not matter: node classes (passed as `factory=`) whose instances are always falsy (and have
+    a `__len__`) and whose `name` differs from `str(data)`; tree subclasses that override the class-level defaults.
     Returns a dict with XNode, XTypedNode, XTree, XTypedTree."""
     if _EXT:
         return _EXT
@@ -337,6 +337,9 @@ def ext_classes():
         def __len__(self):
             return len(self.children)
 
+        def __bool__(self):
+            return False  # nothing in the library may depend on the truth value of a node
+
         @property
         def name(self):
             return "\u00ab" + str(self.data) + "\u00bb"
@@ -344,6 +347,9 @@ def ext_classes():
     class XTypedNode(TypedNode):
         def __len__(self):
             return len(self.children)
+
+        def __bool__(self):
+            return False
 
         @property
         def name(self):
